@@ -308,11 +308,12 @@ impl<R: Read + io::Seek> ZipArchive<R> {
         // have its signature 20 bytes in front of the standard footer. The
         // standard footer, in turn, is 22+N bytes large, where N is the
         // comment length. Therefore:
-        let zip64locator = if reader
-            .seek(io::SeekFrom::End(
-                -(20 + 22 + footer.zip_file_comment.len() as i64),
-            ))
-            .is_ok()
+        // (The end record need not be the last thing in the file: trailing bytes are tolerated,
+        // so the locator is looked for relative to the record that was found, not to the end.)
+        let zip64locator = if cde_start_pos >= 20
+            && reader
+                .seek(io::SeekFrom::Start(cde_start_pos - 20))
+                .is_ok()
         {
             match spec::Zip64CentralDirectoryEndLocator::parse(reader) {
                 Ok(loc) => Some(loc),
